@@ -68,9 +68,40 @@ func chainCompiles(g *gg.Graph, autoKeys bool) (bool, string) {
 	return true, ""
 }
 
-// forestCompiles: every chain of the forest is accepted (graphs are well-formed by construction).
+// reachable: the forest entries the root reaches through sub-graph nodes, in the order they are met (an entry
+// no node refers to is never built: the generators leave such entries behind when they turn a sub-graph node
+// into a lambda, and so does the shrinker)
+func reachable(c *gg.Case) []int {
+	var out []int
+	seen := map[int]bool{}
+	var walk func(idx int)
+	walk = func(idx int) {
+		if idx < 0 || idx >= len(c.Forest) || seen[idx] {
+			return
+		}
+		seen[idx] = true
+		out = append(out, idx)
+		g := &c.Forest[idx]
+		for _, st := range g.Stages {
+			for _, sn := range st.Nodes {
+				if sn.Kind == "sub" {
+					walk(sn.Sub)
+				}
+			}
+		}
+		for _, n := range g.Nodes {
+			if n.Kind == "sub" {
+				walk(n.Sub)
+			}
+		}
+	}
+	walk(0)
+	return out
+}
+
+// forestCompiles: every chain the root reaches is accepted (graphs are well-formed by construction).
 func forestCompiles(c *gg.Case, autoKeys bool) (bool, string) {
-	for gi := range c.Forest {
+	for _, gi := range reachable(c) {
 		if g := &c.Forest[gi]; g.Front == "chain" {
 			if ok, why := chainCompiles(g, autoKeys); !ok {
 				return false, why
@@ -83,7 +114,7 @@ func forestCompiles(c *gg.Case, autoKeys bool) (bool, string) {
 // malformChain breaks one rule in one chain of the forest; returns what it did ("" = nothing applicable).
 func malformChain(r *lib.Rng, c *c01case) string {
 	var chains []int
-	for gi := range c.Forest {
+	for _, gi := range reachable(&c.Case) {
 		if c.Forest[gi].Front == "chain" {
 			chains = append(chains, gi)
 		}
